@@ -555,6 +555,24 @@ def run_check(pid, tier, seed, replay=None):
                     p["_lines"] = lines
                     p["_idx"] = idx
 
+    # ---- generator reach: model branches that the run must exercise at least N times (props
+    # "required_branches": {"<branch id>": N, ...}, optionally per tier: {"quick": {...}, "thorough": {...}}).
+    # A run in which the monitored domain is never entered proves nothing about the implementation, so a
+    # branch below its minimum means the correspondence was not established.
+    req = prop.get("required_branches") or {}
+    if req and any(isinstance(v, dict) for v in req.values()):
+        req = req.get(tier) or req.get("quick") or {}
+    if req and not replay and results:
+        seen = {}
+        for _, _, r in results:
+            for k, v in r["branches"].items():
+                seen[k] = seen.get(k, 0) + v
+        for b, n in sorted(req.items()):
+            if seen.get(b, 0) < int(n):
+                corr_problems.append("model branch %s was exercised %d times by this run, at least %d required "
+                                     "(the generators no longer reach the domain the monitors judge)" % (
+                                         b, seen.get(b, 0), int(n)))
+
     # ---- a predicate failure on the real code: shrink and report with the case as the replay
     reported = set()
     for idx, p, lines in prop_fails:
